@@ -939,6 +939,8 @@ def _entry_model(lab: Lab):
         E(2, 6, "tWW", how="label"),
         E(7, 6, "cSS"),  # between B.C12 and B.PSU11, from the 3' end only
         E(0, ("ghost", "Z", 11, "G"), "cWW"),  # dangling
+        E(0, 5, "tSH"),  # a second, different interaction between two residues that already have one (not its mirror image)
+        E(3, 1, "tWS"),  # the same for a pair listed from its 3' end
     ]
     ST = ClassRef(w.cls(CM, "StackingTopology"))
     S = lambda a, b, t: w.new(CM, "Stacking", lab.name2d(a), lab.name2d(b), w.getattr(ST, t))
@@ -1012,7 +1014,7 @@ def _entry_input(chk, fi, verdict) -> None:
                 miss = [k for k in want_bp if k not in got_bp]
                 extra = [k for k in got_bp if k not in want_bp]
                 if miss or extra:
-                    problems.append(("pairs", f"the mapping built by {fi.qualname} lifts {len(got_bp)} pairs where a mapping of the whole input list lifts {len(want_bp)}: " + (f"{[show(k) for k in miss[:4]]} are lost" if miss else f"{[show(k) for k in extra[:4]]} are added") + " (input: a pair listed from both ends, pairs listed only from their 3' end, a duplicate, author-only and label-only names, a dangling entry): the list handed to the mapping is not the interactions' whole pair list, so BPSEQ, dot-bracket and extended rows describe another list than the one reported", [show(k) for k in (miss or extra)[:6]]))
+                    problems.append(("pairs", f"the mapping built by {fi.qualname} lifts {len(got_bp)} pairs where a mapping of the whole input list lifts {len(want_bp)}: " + (f"{[show(k) for k in miss[:4]]} are lost" if miss else f"{[show(k) for k in extra[:4]]} are added") + " (input: a pair listed from both ends, pairs listed only from their 3' end, a duplicate, two different classes between the same two residues, author-only and label-only names, a dangling entry): the list handed to the mapping is not the interactions' whole pair list, so BPSEQ, dot-bracket and extended rows describe another list than the one reported", [show(k) for k in (miss or extra)[:6]]))
                 miss_s = [k for k in want_st if k not in got_st]
                 extra_s = [k for k in got_st if k not in want_st]
                 if miss_s or extra_s:
